@@ -51,6 +51,11 @@ CHECKS = {
             "The judge is small (a run is start then ok or error); the value is in the generator: TLC enumerates every type position x primitive x size form (incl. overflowing digits) x wrapper x optional, every name position x odd name (%-escapes, keywords, separators), each also reached through an import, plus (operation x position) near-misses of generated valid programs and corpus files truncated at line boundaries. A panic is classified by its first frame inside the repository; a fatal runtime error that kills the driver is attributed to the running scenario and the driver restarted.",
             "In-process compile with a 10 s bound (30 s confirmation); exit-status mapping of the CLI is covered by C20.",
             "DESIGN.md §6 C01"),
+    "C13": ("model_checking",
+            "TLA+ spec SeqDiagram.tla (reference walk of the call tree with in-progress cut; diagram machine over PlantUML lines) with the intended generator model-checked by TLC on all small call graphs; diagrams generated by the real code for TLC-generated call graphs from every start endpoint, parsed line by line into events and validated by TLC (SeqDiagramTrace.tla)",
+            "TLC first shows on every call graph over 2 applications x 2 endpoints (bodies with calls, nesting, recursion, mutual recursion) that a generator following the documented rules satisfies all clauses (declared once, activation balance, calls only while active, blocks closed, arrows = reference walk), so the clauses are satisfiable; then every diagram the real generator produces for TLC-generated programs (3 applications x 2 endpoints, calls in nested if/else/loops/groups/one-of, returns anywhere, self calls, cycles) from every start endpoint is replayed through the same machine. Termination is the wall-clock bound of the worker; an error return is admissible, a panic or hang is not.",
+            "Default labels; no blackboxes, grouping boxes or ~human/~cron participants yet; the PlantUML reader fails closed.",
+            "DESIGN.md §6 C13"),
 }
 
 PENDING = {}
